@@ -317,12 +317,27 @@ Definition process_execution_report (o : order) (m : msg) : order * outcome :=
 
 (* ------------------------------------------------------------------ histories *)
 
-(* any sequence of helper calls on one tester: registrations and fabrications for arbitrary orders *)
-Inductive op := OpRegister (key : str) | OpExec (o : order) (a : eargs).
+(* the helper's public methods that fabricate no execution report: none of them touches the id counters, the
+   registered orders or the root -> OrderID map *)
+Inductive book :=
+| BResetMessages                          (* reset_messages(): clears initiator_sent / acceptor_rcv_que / acceptor_sent *)
+| BSetNextNum (num_in num_out : option Z) (* set_next_num(): the simulated acceptor's session counters *)
+| BQuery                                  (* acceptor_sent_query / initiator_sent_query *)
+| BFactory                                (* msg_logon / msg_logout / msg_heartbeat / msg_test_request /
+                                             msg_sequence_reset / msg_resend_request *)
+| BCancelReject                           (* fix_cxlrep_reject_msg *)
+| BAcceptor.                              (* process_msg_acceptor / reply: session traffic of the simulated acceptor *)
+
+Definition bookkeeping (t : tstate) (b : book) : tstate := t.
+
+(* any sequence of helper calls on one tester: registrations (order_register_single, fix_cxl_request,
+   fix_rep_request), fabrications for arbitrary orders, and the bookkeeping methods *)
+Inductive op := OpRegister (key : str) | OpExec (o : order) (a : eargs) | OpBook (b : book).
 
 Definition step (u : Z) (t : tstate) (p : op) : tstate * option msg :=
   match p with
   | OpRegister key => (register t key, None)
+  | OpBook b => (bookkeeping t b, None)
   | OpExec o a =>
       match fix_exec_report_msg u t o a with
       | Ok m t' => (t', Some m)
